@@ -105,6 +105,32 @@ def gen_case(rng, cid):
         elif r < 0.12 and nin >= 2:
             c["axis"] = axis[:-1]
             c["edit"] = "arity"
+        elif r < 0.15:
+            # one entry of `axis` names fewer / more axes than the signature gives that input
+            a = rng.randrange(nin)
+            c["axis"] = [list(x) for x in axis]
+            if len(axis[a]) > 1 and rng.random() < 0.5:
+                c["axis"][a] = axis[a][:-1]
+            else:
+                c["axis"][a] = axis[a] + [rng.choice(axn)]
+            c["edit"] = "arity"
+        elif r < 0.18 and nd == 2:
+            # two dummy axes of the signature bound to one real axis
+            c["axis"] = [[reals[0] for _ in x] for x in axis]
+            c["edit"] = "arity"
+        elif r < 0.21 and nin >= 2:
+            # fewer arrays than the signature has inputs
+            c["inputs"] = inputs[:-1]
+            c["edit"] = "arity"
+        elif r < 0.25:
+            # the signature names a position the bound axis does not have
+            a = rng.randrange(nin)
+            k = rng.randrange(len(ins[a]))
+            d, p = ins[a][k]
+            absent = [q for q in POS if q not in [x for x, _ in axd[bind[d]]["pos"]]]
+            if absent:
+                ins[a][k] = [d, rng.choice(absent)]
+                c["edit"] = "wrong-position"
         return c
 
 
